@@ -759,8 +759,8 @@ def _generator_profile(count: int, seed: int) -> dict:
 
 
 def run(ctx) -> None:
-    shards = ctx.pick(8, 16)
-    ctx.extra["generated_spec_profile"] = _generator_profile(ctx.pick(150, 1500), ctx.seed)
+    shards = 16
+    ctx.extra["generated_spec_profile"] = _generator_profile(ctx.pick(80, 1500), ctx.seed)
     ctx.extra["bounds"] = {"record_length": [300, 5000], "genes": [1, 8], "protoclusters": [0, 5], "subregions": [0, 3]}
     ctx.hyp("genbank", genbank_specs(), max_examples=ctx.pick(700, 30000), shards=shards)
     ctx.hyp("json", rec.record_specs(), max_examples=ctx.pick(500, 20000), shards=shards)
